@@ -120,7 +120,7 @@ def main_c12(tier, seed):
     bad2, _ = corr_generic(rep, "correspondence Model/Pdf.calculate_pdf (PrimFloat, bit-exact) vs KNNSubgraph.calculate_pdf", "C12pdf", pterms, pexpect, pdescs, typ="list float", cmp=flists_eq)
     bad3, _ = corr_generic(rep, "correspondence Model/Pdf.eliminate_maxima (PrimFloat) vs KNNSubgraph.eliminate_maxima_height", "C12elim", eterms, eexpect, pdescs, typ="list float", cmp=flists_eq)
     rep.corr["create_arcs"] = dict(cases=len(terms), disagreements=None if bad is None else len(bad), k_distribution=kdist,
-                                   kinds={k: sum(1 for it in insts if it.kind == k) for k in ("feat", "lattice", "dup", "mat")})
+                                   kinds={k: sum(1 for it in insts if it.kind == k) for k in ("feat", "lattice", "dup", "mat", "jitter")})
     rep.corr["calculate_pdf"] = dict(cases=len(pterms), disagreements=None if bad2 is None else len(bad2))
     rep.corr["eliminate_maxima_height"] = dict(cases=len(eterms), disagreements=None if bad3 is None else len(bad3))
     rep.extra["oracle_violations"] = nviol
